@@ -294,7 +294,10 @@ class Signals:
         """
         result = False
         handlers = getattr(obj, self._signal_attr, {}).get(name, [])
-        for _key, callback, user_arg, (weak_args, user_args) in handlers:
+        # callbacks may connect/disconnect handlers (disconnect rewrites the list in place): iterate over a snapshot
+        for key, callback, user_arg, (weak_args, user_args) in tuple(handlers):
+            if not any(h[0] is key for h in handlers):
+                continue  # disconnected by a previous callback
             result |= self._call_callback(callback, user_arg, weak_args, user_args, args)
         return result
 
